@@ -290,12 +290,19 @@ def run_case(desc, ctx):
                 # declared elements of every input must be present with shifted indices (edges/faces may be completed further)
                 for name, lst in want_I.items():
                     have = Ig.get(name, [])
-                    hs = {tuple(sorted(el)) for el in have}
-                    if not all(tuple(sorted(el)) in hs for el in lst):
-                        good = False
-                    if name == max(want_I, key=lambda n: ["edges", "faces", "cells"].index(n)):
-                        if [tuple(el) for el in have[:len(lst)]] != [tuple(el) for el in lst] and name != "edges":
+                    if name == "edges":
+                        hs = {tuple(sorted(el)) for el in have}
+                        if not all(tuple(sorted(el)) in hs for el in lst):
                             good = False
+                    else:  # faces / cells keep their vertex order (orientation); the order of the elements is not prescribed
+                        hs = {}
+                        for el in have:
+                            hs[tuple(el)] = hs.get(tuple(el), 0) + 1
+                        for el in lst:
+                            if hs.get(tuple(el), 0) <= 0:
+                                good = False
+                                break
+                            hs[tuple(el)] -= 1
                 if not good:
                     ctx.violation("merge", "merge", "merge_is_not_the_disjoint_union", "merge result is not the inputs with indices shifted by the running vertex count",
                                   producers=[shadows[i].producer for i in idx], same_twice=(len(set(idx)) < len(idx)))
